@@ -278,3 +278,126 @@ Proof.
   apply rl_sim_listed; [discriminate|apply rl_sim_enum_value_definition|apply rgl_enumvaldef_progress|
                         apply rl_requires_enumvaldef].
 Qed.
+
+(* ------------------------------------------------------------------ fuel of X* does not matter once it is enough *)
+Lemma rg_many_f_fuel s p : rg_progress p -> forall a b ts, (length ts <= a)%nat -> (length ts <= b)%nat ->
+  rg_many_f a s p ts = rg_many_f b s p ts.
+Proof.
+  intros Hp. induction a as [|a IH]; intros b ts Ha Hb.
+  - destruct ts; [|cbn in Ha; lia]. destruct b; reflexivity.
+  - destruct ts as [|t ts']; [destruct b; reflexivity|]. destruct b as [|b]; [cbn in Hb; lia|].
+    cbn [rg_many_f]. destruct (s t); [|reflexivity]. unfold rg_bind.
+    destruct (p (t :: ts')) as [r1| |] eqn:E; try reflexivity. pose proof (Hp _ _ E) as Hlt. cbn [length] in *.
+    apply IH; lia.
+Qed.
+Lemma rg_plus_many s p ts : rg_progress p -> rl_head_is s ts = true -> rg_plus s p ts = rg_many s p ts.
+Proof.
+  intros Hp Hh. destruct ts as [|t ts']; [discriminate|]. cbn [rl_head_is] in Hh.
+  unfold rg_plus, rg_seq, rg_many. cbn [length rg_many_f]. rewrite Hh. unfold rg_bind.
+  destruct (p (t :: ts')) as [r1| |] eqn:E; try reflexivity. pose proof (Hp _ _ E) as Hlt. cbn [length] in Hlt.
+  apply rg_many_f_fuel; [exact Hp|lia|lia].
+Qed.
+
+(* ------------------------------------------------------------------ root operation types *)
+Lemma rl_sim_root_operation : rl_sim rl_any g_root_operation_type_definition (rgl_rootop LP).
+Proof.
+  unfold g_root_operation_type_definition, rgl_rootop. cbn [rgl_rootop_notype rgl_parser]. apply rl_sim_node.
+  apply rl_sim_bind; [apply rl_sim_operation_type|intros _].
+  apply rl_sim_peek_else_err; [discriminate| |apply rl_requires_seq_sat].
+  apply rl_sim_bind; [apply rl_sim_bump|intros _; apply rl_sim_named_type_opt].
+Qed.
+Lemma rgl_rootop_progress : rg_progress (rgl_rootop LP).
+Proof.
+  unfold rgl_rootop. apply rg_progress_seq_l; [apply rg_progress_sat|]. apply rg_nolonger_seq.
+  - apply rg_progress_nolonger, rg_progress_sat.
+  - cbn [rgl_rootop_notype rgl_parser]. apply rg_nolonger_opt, rg_progress_nolonger, rg_progress_sat.
+Qed.
+Lemma rgl_rootop_head ts r : rgl_rootop LP ts = RgOk r -> rl_head_is (rg_is TkName) ts = true.
+Proof.
+  unfold rgl_rootop, rg_seq, rg_bind, rg_sat. destruct ts as [|t ts']; [discriminate|]. cbn [rl_head_is].
+  destruct (rg_is_optype t) eqn:E; [|discriminate]. intros _. unfold rg_is_optype, rg_is_in in E.
+  apply andb_prop in E as [E _]. exact E.
+Qed.
+
+Definition g_rootop_loop (f : nat) (acc : bool) : PM bool :=
+  p_peek_while_kind_acc f TkName (fun _ => g_root_operation_type_definition ;; p_ret true) acc.
+
+Lemma rl_rootop_loop_true : forall f s a s', g_rootop_loop f true s = POk (a, s') -> a = true.
+Proof.
+  unfold g_rootop_loop. induction f as [|f IH]; intros s a s' E; [discriminate|]. cbn [p_peek_while_kind_acc] in E.
+  apply bind_ok in E as (o & s1 & _ & E). destruct o as [kind|]; [|unfold p_ret in E; injection E as <- _; reflexivity].
+  destruct (negb (tkind_eqb kind TkName)); [unfold p_ret in E; injection E as <- _; reflexivity|].
+  unfold p_bind at 1 in E. unfold p_get at 1 in E. cbv beta iota in E.
+  apply bind_ok in E as (acc1 & s2 & E2 & E). apply bind_ok in E2 as (? & s3 & _ & E3). unfold p_ret in E3.
+  injection E3 as <- _. apply bind_ok in E as (? & s4 & _ & E). exact (IH _ _ _ E).
+Qed.
+Lemma rl_rootop_loop_flag f acc s a s' : rl_inv s ->
+  g_rootop_loop f acc s = POk (a, s') -> a = acc || rl_head_is (rg_is TkName) (rl_sigs s).
+Proof.
+  intros Hinv E. destruct (rl_inv_cur _ Hinv) as (t & Hc & _). unfold g_rootop_loop in E.
+  destruct f as [|f]; [discriminate|]. cbn [p_peek_while_kind_acc] in E. unfold p_bind at 1 in E.
+  rewrite (peek_some t s Hc) in E. rewrite <- (rl_peek_is_view _ _ TkName Hinv Hc) by discriminate.
+  destruct (tkind_eqb (tok_kind t) TkName); cbn [negb] in E.
+  - unfold p_bind at 1 in E. unfold p_get at 1 in E. cbv beta iota in E.
+    apply bind_ok in E as (acc1 & s2 & E2 & E). apply bind_ok in E2 as (? & s3 & _ & E3). unfold p_ret in E3.
+    injection E3 as <- _. apply bind_ok in E as (? & s4 & _ & E). rewrite (rl_rootop_loop_true _ _ _ _ E).
+    rewrite orb_true_r. reflexivity.
+  - unfold p_ret in E. injection E as <- _. rewrite orb_false_r. reflexivity.
+Qed.
+
+Lemma rl_sim_rootop_loop f acc :
+  rl_sim rl_any (g_rootop_loop f acc) (rg_many (rg_is TkName) (rgl_rootop LP)).
+Proof.
+  assert (Hitem : forall a : bool, rl_sim (fun ts => rl_any ts /\ rg_starts (rg_is TkName) ts)
+            (g_root_operation_type_definition ;; p_ret true) (rgl_rootop LP)).
+  { intros _. apply rl_sim_any. apply rl_sim_silent_r; [apply rl_sim_root_operation|intros _; apply rl_silent_ret]. }
+  split.
+  - unfold g_rootop_loop. apply rl_gen_peek_while_kind_acc. intros a. apply (Hitem a).
+  - intros s a s' E Hok Ht _. unfold g_rootop_loop in E. unfold rg_many.
+    eapply (rl_loop_kind_acc rl_any TkName _ (rgl_rootop LP) rl_suffix_closed_any ltac:(discriminate) Hitem rgl_rootop_progress);
+      eauto. exact I.
+Qed.
+
+(* `{ RootOperationTypeDefinition+ }` as schema_definition writes it *)
+Lemma rl_sim_rootops_block f :
+  rl_sim (rg_starts (rg_is TkLCurly))
+    (p_bump SK_L_CURLY ;;
+     has <- p_peek_while_kind_acc f TkName (fun _ => g_root_operation_type_definition ;; p_ret true) false ;;
+     p_when (negb has) p_err ;; p_expect TkRCurly SK_R_CURLY)
+    (rgl_rootops LP).
+Proof.
+  unfold rgl_rootops. apply rl_sim_bind; [apply rl_sim_bump|intros _].
+  assert (Hloop := rl_sim_rootop_loop f false).
+  assert (Hexp : rl_sim rl_any (p_expect TkRCurly SK_R_CURLY) (rg_sat (rg_is TkRCurly))) by (apply rl_sim_expect; discriminate).
+  split.
+  { apply rl_gen_bind; [apply Hloop|intros has]. apply rl_gen_bind; [|intros; apply Hexp].
+    destruct (negb has); cbn [p_when]; [apply rl_gen_err|apply rl_gen_ret]. }
+  intros s u s' E Hok Ht _. pose proof Hok as [Hinv Ha]. apply bind_ok in E as (has & s1 & E1 & E).
+  pose proof (rl_rootop_loop_flag _ _ _ _ _ Hinv E1) as Hhas. cbn [orb] in Hhas.
+  destruct (rl_head_is (rg_is TkName) (rl_sigs s)) eqn:Hh; subst has; cbn [negb p_when] in E.
+  - (* at least one: X+ = X* here *)
+    apply (rl_post_ext (rg_seq (rg_many (rg_is TkName) (rgl_rootop LP)) (rg_sat (rg_is TkRCurly)))).
+    { unfold rg_seq. rewrite (rg_plus_many _ _ _ rgl_rootop_progress Hh). reflexivity. }
+    assert (Hsim : rl_sim rl_any (g_rootop_loop f false ;; p_ret tt ;; p_expect TkRCurly SK_R_CURLY)
+                     (rg_seq (rg_many (rg_is TkName) (rgl_rootop LP)) (rg_sat (rg_is TkRCurly)))).
+    { apply rl_sim_bind; [exact Hloop|intros _]. apply rl_sim_silent_l; [apply rl_silent_ret|intros _; exact Hexp]. }
+    apply (proj2 Hsim s u s'); [|exact Hok|exact Ht|exact I].
+    unfold p_bind at 1. unfold g_rootop_loop. rewrite E1. exact E.
+  - (* none: reported *)
+    apply bind_ok in E as (? & s2 & E2 & E3).
+    destruct (proj2 Hloop s _ s1 E1 Hok Ht I) as [Hs1 _].
+    destruct (rl_gen_run _ _ _ _ (proj1 Hloop) E1 Ht) as (Ht1 & _ & _ & Hx1).
+    apply rl_post_dirty.
+    + intros He.
+      assert (Hx2 : rl_ext s1 s2) by exact (proj2 (post_returns _ _ _ _ (proj2 rl_gen_err) s1 I _ _ E2)).
+      assert (Hx3 : rl_ext s2 s') by exact (proj2 (post_returns _ _ _ _ (proj2 (proj1 Hexp)) s2 I _ _ E3)).
+      destruct (rl_ext_split _ _ _ Hx1 (rl_ext_trans _ _ _ Hx2 Hx3) He) as [He1 He23].
+      destruct (rl_ext_split _ _ _ Hx2 Hx3 He23) as [He2 _].
+      destruct (Hs1 He1) as (Hok1 & _ & _). exact (rl_err_run _ _ _ Hok1 E2 He2).
+    + unfold rg_seq, rg_plus, rg_seq. destruct (rgl_rootop LP (rl_sigs s)) as [r1| |] eqn:Eq; try reflexivity.
+      * rewrite (rgl_rootop_head _ _ Eq) in Hh. discriminate.
+      * exfalso. unfold rgl_rootop, rg_seq, rg_bind, rg_sat in Eq. destruct (rl_sigs s) as [|t0 ts]; [discriminate|].
+        destruct (rg_is_optype t0); [|discriminate]. destruct ts as [|t1 ts1]; [discriminate|].
+        destruct (rg_is TkColon t1); [|discriminate]. cbn [rgl_rootop_notype rgl_parser] in Eq. unfold rg_opt, rg_name, rg_sat in Eq.
+        destruct ts1 as [|t2 ts2]; [discriminate|]. destruct (rg_is TkName t2); discriminate.
+Qed.
